@@ -843,7 +843,7 @@ func judge(entry string, out string, r reqSpec, hasECS bool) string {
 			for i, s := range idl {
 				e := entries[vlib.Atoi(s)]
 				if e == nil {
-					return "FAIL sig=" + entry + "/hit/unknown-entry id=" + s
+					return "FAIL sig=" + entry + "/hit/purged-or-unknown-entry id=" + s
 				}
 				hop := ""
 				if i > 0 {
@@ -881,7 +881,7 @@ func judge(entry string, out string, r reqSpec, hasECS bool) string {
 		c := cuts[vlib.Atoi(cutS)]
 		switch {
 		case c == nil:
-			return "FAIL sig=" + entry + "/cut/unknown-cut"
+			return "FAIL sig=" + entry + "/cut/purged-or-unknown-cut"
 		case !oIsSuffix(c.labels, cur):
 			return "FAIL sig=" + entry + "/cut/name-not-below-denied-name"
 		case c.class != r.id.class:
@@ -1211,6 +1211,48 @@ func execVer(f []string) vlib.Res {
 	return vlib.Res{Impl: "bad-op"}
 }
 
+// drainQueue runs every queued background refresh through the real processPrefetch and judges it.
+func drainQueue(parts *[]string, or *string) {
+	mcache.VerifC03DrainPrefetch(pc, func(key uint64, refreshed *mcache.CacheEntry) {
+		if len(up.asked) == 0 {
+			*parts = append(*parts, "not-asked")
+			return
+		}
+		rec := up.asked[len(up.asked)-1]
+		ptr, ok := store().LookupByKey(key)
+		replaced := false
+		if ok {
+			if ids := markerIDs(mcache.VerifC03EntryMsg(ptr)); len(ids) > 0 && ids[len(ids)-1] == rec.id {
+				replaced = true
+			}
+		}
+		al, _ := oPresLabels(rec.q.Name)
+		// the answer was obtained in the partition the upstream was ASKED in, for the question it carries
+		rl, _ := oPresLabels(rec.rq.Name)
+		entries[rec.id] = &storedEntry{labels: rl, qtype: rec.rq.Qtype, class: rec.rq.Qclass, cd: rec.cd, ptr: ptr}
+		*parts = append(*parts, fmt.Sprintf("asked=%s,%d,%d,%s id=%d r=%s", presTok(rec.q.Name), rec.q.Qtype, rec.q.Qclass, vlib.B(rec.cd), rec.id, vlib.B(replaced)))
+		// oracle: a refresh re-asks the question, in the partition, of the entry it refreshes
+		old := mcache.VerifC03EntryIdent(refreshed)
+		ol, _ := oPresLabels(old.Q.Name)
+		switch {
+		case !oLabelsFoldEq(ol, al) || old.Q.Qtype != rec.q.Qtype || old.Q.Qclass != rec.q.Qclass:
+			*or = "FAIL sig=pipe/drain/refresh-asked-another-question"
+		case old.CD != rec.cd:
+			*or = "FAIL sig=pipe/drain/refresh-asked-in-the-other-cd-partition"
+		}
+		if replaced {
+			got := mcache.VerifC03EntryIdent(ptr)
+			gl, _ := oPresLabels(got.Q.Name)
+			if !oLabelsFoldEq(gl, rl) || got.Q.Qtype != rec.rq.Qtype || got.Q.Qclass != rec.rq.Qclass {
+				*or = "FAIL sig=pipe/drain/answer-for-another-question-filed-as-the-refreshed-one"
+			}
+			if got.CD != rec.cd {
+				*or = fmt.Sprintf("FAIL sig=pipe/drain/answer-to-cd=%s-question-filed-in-cd=%s-partition", vlib.B(rec.cd), vlib.B(got.CD))
+			}
+		}
+	})
+}
+
 func hasECSOpt(r reqSpec) bool { return r.client.IsValid() }
 
 // strictPurge makes the purge oracle demand exactness (no over-deletion at all);
@@ -1262,44 +1304,20 @@ func execPipe(f []string) vlib.Res {
 		}
 		var parts []string
 		or := "ok"
-		mcache.VerifC03DrainPrefetch(pc, func(key uint64, refreshed *mcache.CacheEntry) {
-			if len(up.asked) == 0 {
-				parts = append(parts, "not-asked")
-				return
-			}
-			rec := up.asked[len(up.asked)-1]
-			ptr, ok := store().LookupByKey(key)
-			replaced := false
-			if ok {
-				if ids := markerIDs(mcache.VerifC03EntryMsg(ptr)); len(ids) > 0 && ids[len(ids)-1] == rec.id {
-					replaced = true
+		crashed := ""
+		func() {
+			// the worker runs on its own goroutine in production: a panic there takes the process down. Typical
+			// cause: the queued request aliases a message its owner has recycled meanwhile.
+			defer func() {
+				if p := recover(); p != nil {
+					crashed = fmt.Sprint(p)
 				}
-			}
-			al, _ := oPresLabels(rec.q.Name)
-			// the answer was obtained in the partition the upstream was ASKED in, for the question it carries
-			rl, _ := oPresLabels(rec.rq.Name)
-			entries[rec.id] = &storedEntry{labels: rl, qtype: rec.rq.Qtype, class: rec.rq.Qclass, cd: rec.cd, ptr: ptr}
-			parts = append(parts, fmt.Sprintf("asked=%s,%d,%d,%s id=%d r=%s", presTok(rec.q.Name), rec.q.Qtype, rec.q.Qclass, vlib.B(rec.cd), rec.id, vlib.B(replaced)))
-			// oracle: a refresh re-asks the question, in the partition, of the entry it refreshes
-			old := mcache.VerifC03EntryIdent(refreshed)
-			ol, _ := oPresLabels(old.Q.Name)
-			switch {
-			case !oLabelsFoldEq(ol, al) || old.Q.Qtype != rec.q.Qtype || old.Q.Qclass != rec.q.Qclass:
-				or = "FAIL sig=pipe/drain/refresh-asked-another-question"
-			case old.CD != rec.cd:
-				or = "FAIL sig=pipe/drain/refresh-asked-in-the-other-cd-partition"
-			}
-			if replaced {
-				got := mcache.VerifC03EntryIdent(ptr)
-				gl, _ := oPresLabels(got.Q.Name)
-				if !oLabelsFoldEq(gl, rl) || got.Q.Qtype != rec.rq.Qtype || got.Q.Qclass != rec.rq.Qclass {
-					or = "FAIL sig=pipe/drain/answer-for-another-question-filed-as-the-refreshed-one"
-				}
-				if got.CD != rec.cd {
-					or = fmt.Sprintf("FAIL sig=pipe/drain/answer-to-cd=%s-question-filed-in-cd=%s-partition", vlib.B(rec.cd), vlib.B(got.CD))
-				}
-			}
-		})
+			}()
+			drainQueue(&parts, &or)
+		}()
+		if crashed != "" {
+			return vlib.Res{Impl: "worker-panic", Oracle: "FAIL sig=pipe/drain/refresh-worker-panicked-on-its-queued-request " + crashed, Tags: "nt,refresh"}
+		}
 		if len(parts) == 0 {
 			return vlib.Res{Impl: "none", Oracle: "ok"}
 		}
@@ -1438,6 +1456,12 @@ func execPipe(f []string) vlib.Res {
 			aliasPres = alias.pres
 		}
 		resp := answerMsg(id, eid, aliasPres)
+		if len(f) > 6 && strings.HasPrefix(f[6], "rr=") {
+			// the records carry another class than the question (QCLASS ANY answered with IN records, …)
+			for _, rr := range resp.Answer {
+				rr.Header().Class = uint16(vlib.Atoi(f[6][3:]))
+			}
+		}
 		if id.scope.IsValid() {
 			store().SetFromResponseScoped(key, resp, id.scope, time.Time{}, 0)
 		} else {
@@ -1578,6 +1602,23 @@ func execPipe(f []string) vlib.Res {
 		lastPurgeRemoved = diffRemoved(before, after)
 		// oracle: every entry OF THE PURGED QUESTION that sits under its own key is gone
 		pl, _ := id.n.labels()
+		// … and the oracle forgets what the operator purged: the answers of that question (every CD/scope),
+		// its failure states, and every cut covering the name — whatever route serves them afterwards is wrong
+		for k, e := range entries {
+			if oLabelsFoldEq(e.labels, pl) && e.qtype == id.qtype && e.class == id.class {
+				delete(entries, k)
+			}
+		}
+		for k, fl := range failures {
+			if oLabelsFoldEq(fl.labels, pl) && fl.class == id.class && (fl.zone || fl.qtype == id.qtype) {
+				delete(failures, k)
+			}
+		}
+		for k, c := range cuts {
+			if oIsSuffix(c.labels, pl) && c.class == id.class {
+				delete(cuts, k)
+			}
+		}
 		or := "ok"
 		strict := ""
 		store().ForEach(func(_ bool, key uint64, e *mcache.CacheEntry) bool {
